@@ -35,7 +35,8 @@ def generate(rng, tier):
     n = 120 if tier == "quick" else 1500
     cases = []
     # the repaired history first: 3-line text, then 1-line text, then 4-line text on one session
-    hist = [("new", 1), ("text", 1, "a = 1\nb = 2\na + b"), ("run", 1), ("text", 1, "a * 10"), ("run", 1),
+    hist = [("new", 1), ("text", 1, "a = 1\nb = 2\na + b"), ("run", 1), ("text", 1, "a = 1\nb = 2\na + b"), ("run", 1),
+            ("text", 1, "a * 10"), ("run", 1),
             ("text", 1, "c = 3\na + c\n\nb * c"), ("run", 1), ("exec", "a + b")]
     pool = [hist]
     while len(pool) < n:
@@ -53,7 +54,9 @@ def generate(rng, tier):
                 h.append(("run", sid))
             elif r < 0.65:
                 sid = rng.choice(sessions)
-                h.append(("text", sid, gen_text(rng)))
+                last = [st[2] for st in h if st[0] == "text" and st[1] == sid]
+                # re-submitting the very same text must evaluate every line again
+                h.append(("text", sid, last[-1] if (last and rng.random() < 0.35) else gen_text(rng)))
                 if rng.random() < 0.9:
                     h.append(("run", sid))
             else:
